@@ -69,7 +69,11 @@ func (eval Evaluator) Trace(ctIn *Ciphertext, logN int, opOut *Ciphertext) (err 
 		ringQ.MulScalarBigint(ctIn.Value[0], NInv, opOut.Value[0])
 		ringQ.MulScalarBigint(ctIn.Value[1], NInv, opOut.Value[1])
 
-		if !ctIn.IsNTT {
+		// ctIn and opOut can be the same object: the domain of the input is
+		// read before the flag of the output changes.
+		inputIsNTT := ctIn.IsNTT
+
+		if !inputIsNTT {
 			ringQ.NTT(opOut.Value[0], opOut.Value[0])
 			ringQ.NTT(opOut.Value[1], opOut.Value[1])
 			opOut.IsNTT = true
@@ -105,7 +109,7 @@ func (eval Evaluator) Trace(ctIn *Ciphertext, logN int, opOut *Ciphertext) (err 
 			ringQ.Add(opOut.Value[1], buff.Value[1], opOut.Value[1])
 		}
 
-		if !ctIn.IsNTT {
+		if !inputIsNTT {
 			ringQ.INTT(opOut.Value[0], opOut.Value[0])
 			ringQ.INTT(opOut.Value[1], opOut.Value[1])
 			opOut.IsNTT = false
